@@ -758,11 +758,37 @@ func CondFacts(cond ssa.Value, branch bool) []Cmp {
 			if !branch {
 				op = negOp[op]
 			}
-			return []Cmp{{Path(x.X), op, Path(x.Y)}}
+			out := []Cmp{{Path(x.X), op, Path(x.Y)}}
+			// result of a transparent helper compared with nil: what holds on the ways it returns (non-)nil
+			if op == "==" || op == "!=" {
+				var other ssa.Value
+				if IsNilConst(x.Y) {
+					other = x.X
+				} else if IsNilConst(x.X) {
+					other = x.Y
+				}
+				if other != nil {
+					if f, cc, idx := helperCallOf(other); f != nil {
+						out = append(out, helperResultFacts(f, cc, idx, true, op == "==")...)
+					}
+				}
+			}
+			return out
 		}
 	case *ssa.UnOp:
 		if x.Op == token.NOT {
 			return CondFacts(x.X, !branch)
+		}
+	case *ssa.Extract:
+		// the bool result of a transparent helper returning several values
+		if f, cc, idx := helperCallOf(x); f != nil {
+			if fs := helperResultFacts(f, cc, idx, false, branch); len(fs) > 0 {
+				bb := "c:false"
+				if branch {
+					bb = "c:true"
+				}
+				return append([]Cmp{{Path(cond), "==", bb}}, fs...)
+			}
 		}
 	case *ssa.Call:
 		// a transparent predicate helper: the facts of its result expression, in the caller's frame
@@ -801,19 +827,22 @@ func CondFacts(cond ssa.Value, branch bool) []Cmp {
 
 var predBusy = map[*ssa.Function]bool{}
 
-// predicateFacts: for a transparent helper returning one bool, the comparison facts established on
-// every path to a return that can yield `want` (const returns of the other value are excluded; a
-// non-constant result contributes its own condition facts).
-func predicateFacts(f *ssa.Function, call *ssa.CallCommon, want bool) []Cmp {
+// helperResultFacts: for a transparent helper, the comparison facts established on every path to a
+// return whose idx-th result can have the wanted outcome — a bool result being `want`, or (nilKind) an
+// error/pointer result being nil (want) or non-nil (!want). Returns that certainly produce the other
+// outcome are excluded; a non-constant bool result contributes its own condition facts.
+func helperResultFacts(f *ssa.Function, call *ssa.CallCommon, idx int, nilKind, want bool) []Cmp {
 	if !Transparent(f) || predBusy[f] || len(inlineEnv) > 3 {
 		return nil
 	}
 	res := f.Signature.Results()
-	if res.Len() != 1 {
+	if idx >= res.Len() {
 		return nil
 	}
-	if b, ok := res.At(0).Type().Underlying().(*types.Basic); !ok || b.Kind() != types.Bool {
-		return nil
+	if !nilKind {
+		if b, ok := res.At(idx).Type().Underlying().(*types.Basic); !ok || b.Kind() != types.Bool {
+			return nil
+		}
 	}
 	predBusy[f] = true
 	defer delete(predBusy, f)
@@ -825,17 +854,37 @@ func predicateFacts(f *ssa.Function, call *ssa.CallCommon, want bool) []Cmp {
 	}
 	inlineEnv = append(inlineEnv, env)
 	defer func() { inlineEnv = inlineEnv[:len(inlineEnv)-1] }()
+	facts := map[Edge][]Cmp{}
+	edgeFactsOf(f, facts)
 	var common map[string]Cmp
 	n := 0
 	for _, r := range Returns(f) {
-		v := ResultValues(r)[0]
-		if IsConstBool(v, !want) {
+		vals := ResultValues(r)
+		if idx >= len(vals) {
+			return nil
+		}
+		v := vals[idx]
+		certain, outcome := false, false // outcome: true = "want-like" (bool true / nil)
+		if nilKind {
+			switch {
+			case IsNilConst(v):
+				certain, outcome = true, true
+			case definitelyNonNil(v):
+				certain, outcome = true, false
+			}
+		} else {
+			switch {
+			case IsConstBool(v, true):
+				certain, outcome = true, true
+			case IsConstBool(v, false):
+				certain, outcome = true, false
+			}
+		}
+		if certain && outcome != want {
 			continue
 		}
 		n++
 		here := map[string]Cmp{}
-		facts := map[Edge][]Cmp{}
-		edgeFactsOf(f, facts)
 		for e, fs := range facts {
 			if Guarded(f, r, []Edge{e}) {
 				for _, c := range fs {
@@ -843,7 +892,7 @@ func predicateFacts(f *ssa.Function, call *ssa.CallCommon, want bool) []Cmp {
 				}
 			}
 		}
-		if !IsConstBool(v, want) {
+		if !certain && !nilKind {
 			for _, c := range CondFacts(v, want) {
 				here[c.String()] = c
 			}
@@ -867,6 +916,44 @@ func predicateFacts(f *ssa.Function, call *ssa.CallCommon, want bool) []Cmp {
 	}
 	sort.Slice(out, func(i, j int) bool { return out[i].String() < out[j].String() })
 	return out
+}
+
+func predicateFacts(f *ssa.Function, call *ssa.CallCommon, want bool) []Cmp {
+	return helperResultFacts(f, call, 0, false, want)
+}
+
+// definitelyNonNil: an error value built on the spot.
+func definitelyNonNil(v ssa.Value) bool {
+	v = Strip(v)
+	if c, ok := v.(*ssa.Call); ok {
+		if f := StaticCallee(&c.Call); f != nil {
+			switch CalleeName(f) {
+			case "fmt.Errorf", "errors.New":
+				return true
+			}
+		}
+	}
+	if _, ok := v.(*ssa.Alloc); ok {
+		return true
+	}
+	return false
+}
+
+// helperCallOf recognises v as (a result of) a plain call of a transparent helper.
+func helperCallOf(v ssa.Value) (*ssa.Function, *ssa.CallCommon, int) {
+	idx := 0
+	if ex, ok := v.(*ssa.Extract); ok {
+		v, idx = ex.Tuple, ex.Index
+	}
+	call, ok := v.(*ssa.Call)
+	if !ok {
+		return nil, nil, 0
+	}
+	f := transparentCallee(call)
+	if f == nil {
+		return nil, nil, 0
+	}
+	return f, &call.Call, idx
 }
 
 // Edge is a CFG edge From → From.Succs[Succ].
